@@ -557,7 +557,7 @@ def run(pid, tier, sdir, t0):
             if lawfails and len(viol) + len(known_hits) == nv0:
                 raise Infra('%d model-level laws failed in %s (%s) but the real library shows no deviation: the specification (or jsonpath.peg vs jsonpath.peg.go) is off' %
                             (lawfails, st['label'], [k for k in summ['counters'] if k.startswith('lawfail:')]))
-            if st.get('check_count', True) and ts['distinct'] and not st.get('simulate') and summ['cases'] not in (ts['distinct'], ts['distinct'] - ts['init']) and not st.get('max_cases'):
+            if st.get('check_count', True) and ts['distinct'] and not st.get('simulate') and summ['cases'] - lawfails not in (ts['distinct'], ts['distinct'] - ts['init']) and not st.get('max_cases'):
                 raise Infra('replayer saw %d cases but TLC found %d distinct states (%s)' % (summ['cases'], ts['distinct'], st['label']))
         elif st['kind'] == 'tlc':
             log('[%s/%s] stage %s: TLC %s (model only)' % (pid, tier, st['label'], st['module']))
